@@ -37,6 +37,8 @@ func checkC16(c *Ctx, r *Report, tier string) {
 	r.Rule("C16.R1", "no aliasing between partitions: a slice stored into an element of the placement result inside a loop is freshly allocated in that iteration (make+copy, append onto nil/fresh, or a fresh membership call), never a sub-slice of a buffer rewritten by the same loop", 1)
 	r.Rule("C16.R2", "count: the stored slice has length min(len(members), replication factor) and nothing else", 1)
 	r.Rule("C16.R3", "members, distinct: the buffer comes from Conn.NodeIds() (keys of the address map); its only element writes are a pure two-index swap inside the shuffle callback; the membership call returns a fresh slice; the address book (= the membership) is written only by its legitimate writers", 4)
+	r.Rule("C16.R5", "independent placement: the order the prefix is taken from is the shuffle's — the member buffer is passed to no function that could reorder it; the proposer replaces the client's partition table on every path", 2)
+	proposerOwnsStructuredFields(c, r, "C16.R5")
 	r.Rule("C16.R4", "placement travels in the proposal: the proposer stores element i of the placement result into partition i's NodeIds before marshalling; the apply side never calls the placement function", 2)
 	// placement function: method returning [][]uint64 that calls Conn.NodeIds
 	var place *ssa.Function
@@ -249,6 +251,33 @@ func checkC16(c *Ctx, r *Report, tier string) {
 		}
 	}
 	r.Check(okSwap, "C16.R3", fn, "permutation-only", c.Pos(place.Pos()), detail)
+	// R5: independence — between the shuffle and the prefix nothing else sees (and could reorder) the buffer
+	{
+		bad := ""
+		nCalls := 0
+		eachInstr(place, func(i ssa.Instruction) {
+			cc := asCall(i)
+			if cc == nil {
+				return
+			}
+			id := callID(cc)
+			if id.Pkg == "builtin" {
+				return
+			}
+			nCalls++
+			for _, a := range cc.Args {
+				if _, isSlice := strip(a).Type().Underlying().(*types.Slice); !isSlice {
+					continue
+				}
+				for _, o := range origins(strip(a), originOpt{}) {
+					if isMembership(o) {
+						bad = id.String() + " at " + c.InstrPos(i)
+					}
+				}
+			}
+		})
+		r.Check(bad == "", "C16.R5", fn, "order-is-the-shuffle", c.Pos(place.Pos()), "the member buffer is handed to nothing but len/append between the per-partition shuffle and the prefix ("+bad+"): any other ordering step (a sort by load, by id, …) applied after the shuffle makes every partition of the dataset prefer the same nodes")
+	}
 	// the membership call hands out a fresh slice (the placement shuffles it in place)
 	if nf := c.Method("cluster", "Conn", "NodeIds"); nf != nil {
 		okF, whyF := true, "Conn.NodeIds() returns a freshly built slice"
@@ -568,6 +597,9 @@ func checkC17(c *Ctx, r *Report, tier string) {
 		// and then returns without adding
 		r.Check(sent, "C17.R3", fnName(worker), fmt.Sprintf("error-branch#%d", n), c.Pos(ifi.Cond.Pos()), "error is sent to the collector")
 	}
+	workerErrorsSent(c, r, "C17.R3", worker)
+	r.Rule("C17.R4", "a size that could not be obtained fails every caller up to the RPC: each call into the size chain (SizeInfo, Len, BytesSize, List, …) has its own error tested or forwarded, never merged with later results or overwritten", 3)
+	sizeErrorsPropagate(c, r, "C17.R4")
 	// collector: the select loop returns error for non-nil message and ctx.Done
 	okColl := false
 	okDone := false
